@@ -51,6 +51,8 @@ PASS_OVER = {
     'C13:prop-accessors:warn:K{prop[get:bad,set:chk]}',
     'C13:prop-accessors:warn:K{prop[get:chk,del:bad]}',
     'C13:prop-accessors:warn:K{prop[get:bad,del:chk]}',
+    'C13:prop-accessors:warn:K{prop[get:none,set:chk,del:bad]}',
+    'C13:prop-accessors:warn:K{prop[get:none,set:bad,del:chk]}',
 }
 
 
@@ -616,9 +618,9 @@ def candidates(case: dict):
                         d = copy.deepcopy(c)
                         (d['members'][i] if a == '' else d['members'][i][a])[flag] = val
                         yield d
-                if fn['ann'] == 'bad':
+                if fn['ann'] in ('bad', 'ign'):
                     d = copy.deepcopy(c)
-                    (d['members'][i] if a == '' else d['members'][i][a])['ann'] = 'chk'
+                    (d['members'][i] if a == '' else d['members'][i][a])['ann'] = 'chk' if fn['ann'] == 'bad' else 'none'
                     yield d
             if m['kind'] == 'prop':
                 for a in ('set', 'del'):
